@@ -120,6 +120,10 @@ class YKey:
         return f'YKey({self.v})'
 
 
+class SchedulerStall(RuntimeError):
+    """A hand-over did not happen within a minute (machine overloaded): the case is inconclusive, never a violation."""
+
+
 class Sched:
     """Exactly one worker runs at a time; switches happen only at yield points."""
 
@@ -141,7 +145,7 @@ class Sched:
         self.yields[i] += 1
         self.back.release()
         if not self.go[i].acquire(timeout=60):
-            raise RuntimeError('scheduler lost')
+            raise SchedulerStall('scheduler lost')
 
     def worker(self, i, fn, out):
         self.local.idx = i
@@ -177,7 +181,7 @@ class Sched:
             last = pick
             self.go[pick].release()
             if not self.back.acquire(timeout=60):
-                raise RuntimeError('worker does not return control')
+                raise SchedulerStall('worker does not return control')
         for t in threads:
             t.join(timeout=10)
         return out
@@ -339,6 +343,8 @@ def prop_schedule(sh, case):
         text = QUERIES[qs[i]][0]
         if w[0] != 'ok':
             continue
+        if got[0] != 'ok' and isinstance(got[1], SchedulerStall):
+            raise got[1]
         if got[0] != 'ok':
             fails.append((f'concurrent-raises:{type(got[1]).__name__}', f'thread {i} {text!r} [{sharing}] schedule {schedule}: {got[1]!r}'))
         elif got[1] != w[2]:
